@@ -116,6 +116,12 @@ def run(res, tier, seed):
                            f"    lw ra, 0(sp)\n    li t0, {4096 * k_}\n    add sp, sp, t0\n    ret\n")
         const_files.append(f"main:\n    li t0, {4096 * k_}\n    srli t1, t0, 12\n    addi a7, t1, {10 - k_}\n    li a0, 0\n    ecall\n")
         const_files.append(f"main:\n    li t0, -{4096 * k_}\n    srai t1, t0, 12\n    addi a7, t1, {10 + k_}\n    li a0, 0\n    ecall\n")
+    # a statement cut short at the end of its line, followed by a line that matters (seed C13-t let the
+    # recovery swallow the following line unless a comment or a blank line stood in between): violating
+    # programs are rewritten like the others
+    for cut in ("addi a0, a0", "add t0, t1", "lw a0", "beq a0, a1", "li t0", "sw a0, 4(sp"):
+        const_files.append(f"main:\n    li a0, 1\n    {cut}\n    li a7, 10\n    ecall\n")
+        const_files.append(f"main:\n    li a0, 1\n    jal f\n    li a7, 10\n    ecall\nf:\n    {cut}\n    addi a0, a0, 1\n    ret\n")
     base += const_files
     pairs = []
     for s in base:
